@@ -108,7 +108,7 @@ theorem step_unfold (P : Params K Rat) (st : St K) (j : Nat) (h0 : st.info = 0) 
   rfl
 
 /-- **Preservation.** One successful column step re-establishes the invariant. -/
-theorem step_inv (laws : MagLaws K) (P : Params K Rat) (hu0 : 0 < P.u) (hu1 : P.u ≤ 1)
+theorem step_inv (laws : MagLaws K) (P : Params K Rat) (hu0 : 0 ≤ P.u) (hu1 : P.u ≤ 1)
     (hcol : ∀ j, (P.col j).size = P.m) (st : St K) (j : Nat) (h : Inv P st j) (h0 : st.info = 0)
     (h1 : (step P st j).info = 0) : Inv P (step P st j) (j + 1) := by
   have hstep := step_unfold P st j h0
@@ -274,7 +274,7 @@ theorem inv_init (P : Params K Rat) (b : Bool) : Inv P ({ usepr := b } : St K) 0
   simp [prev, UnitLower]
 
 /-- **Invariant on every reachable state.** -/
-theorem run_inv (laws : MagLaws K) (P : Params K Rat) (hu0 : 0 < P.u) (hu1 : P.u ≤ 1)
+theorem run_inv (laws : MagLaws K) (P : Params K Rat) (hu0 : 0 ≤ P.u) (hu1 : P.u ≤ 1)
     (hcol : ∀ j, (P.col j).size = P.m) (b : Bool) (j : Nat) (h : (run P b j).info = 0) :
     Inv P (run P b j) j := by
   induction j with
